@@ -57,6 +57,22 @@ let register (reg : string -> (Sx.t list -> Sx.t) -> unit) : unit =
         let a = f now0 and b = f now1 in
         if a = b then wr_opt (wr_pair wr_str wr_z) a else Y "ambiguous"
       | _ -> raise (Bad "cs_load arity"));
+  reg "cs_load_ok" (function
+      | [macs; cfg; cookies; now0; now1] ->
+        let m = table_fun (rd_table macs) in
+        let f now = CookieStore.store_load m (rd_ccfg cfg) (rd_cookies cookies) (rd_z now) <> None in
+        let a = f now0 and b = f now1 in
+        if a = b then wr_bool a else Y "ambiguous"
+      | _ -> raise (Bad "cs_load_ok arity"));
+  (* the store key Manager.Load reads, if any *)
+  reg "ticket_key" (function
+      | [macs; cfg; cookies; now0; now1] ->
+        let m = table_fun (rd_table macs) in
+        let f now = (match Ticket.ticket_from_request m (rd_ccfg cfg) (rd_cookies cookies) (rd_z now) with
+            | Some (id, _) -> Some id | None -> None) in
+        let a = f now0 and b = f now1 in
+        if a = b then wr_opt wr_str a else Y "ambiguous"
+      | _ -> raise (Bad "ticket_key arity"));
   reg "cs_clear" (function
       | [cfg; host; cookies; already] ->
         wr_headers (CookieStore.store_clear (rd_ccfg cfg) (rd_str host) (rd_cookies cookies) (rd_list rd_str already))
@@ -121,6 +137,25 @@ let register (reg : string -> (Sx.t list -> Sx.t) -> unit) : unit =
            | Csrf.CbStateMismatch -> obs 403 false true true ""
            | Csrf.CbStateOK (_, rd) -> obs 302 true true true (string_of_str rd))
       | _ -> raise (Bad "callback_obs arity"));
+  reg "csrf_load_ok" (function
+      | [macs; decs; cfg; cookies; name; now0; now1] ->
+        let m = table_fun (rd_table macs) in
+        let dtab = Hashtbl.create 8 in
+        List.iter (function
+            | L [k; L [st; nn; cv]] ->
+              Hashtbl.replace dtab (string_of_str (rd_str k))
+                { Csrf.cs_state = rd_str st; cs_nonce = rd_str nn; cs_verifier = rd_str cv }
+            | v -> raise (Bad ("bad dec entry " ^ to_string v))) (match decs with L l -> l | _ -> []);
+        let d raw = Hashtbl.find_opt dtab (string_of_str raw) in
+        let c = (match cfg with
+            | L [nm; per; enc; expire] ->
+              { Csrf.k_name = rd_str nm; k_per_request = rd_bool per; k_encode_state = rd_bool enc;
+                k_expire_ns = rd_z expire }
+            | v -> raise (Bad ("bad csrf cfg " ^ to_string v))) in
+        let f now = Csrf.load_csrf m d c (rd_cookies cookies) (rd_str name) (rd_z now) <> None in
+        let a = f now0 and b = f now1 in
+        if a = b then wr_bool a else Y "ambiguous"
+      | _ -> raise (Bad "csrf_load_ok arity"));
   reg "decode_state" (function
       | [state; enc] -> wr_opt (wr_pair wr_str wr_str) (Csrf.decode_state (rd_str state) (rd_bool enc))
       | _ -> raise (Bad "decode_state arity"));
